@@ -117,6 +117,28 @@ func resolvers() []rdef {
 			return clientip.NewRightmostTrustedRange(k, clientip.TrustedIPRangeFunc(func() ([]net.IPNet, error) { return nets, nil }))
 		},
 		ref: func(es []ref.Entry) (netip.Addr, bool) { return ref.RightmostTrustedRange(es, ct) }})
+	// an empty trusted set: nothing is trusted, the rightmost entry is designated
+	for _, variant := range []string{"nil", "empty"} {
+		variant := variant
+		out = append(out, rdef{name: "RightmostTrustedRange(" + variant + " range list)", rightmost: true,
+			mk: func(k clientip.HeaderKey) (fox.ClientIPResolver, error) {
+				return clientip.NewRightmostTrustedRange(k, clientip.TrustedIPRangeFunc(func() ([]net.IPNet, error) {
+					if variant == "nil" {
+						return nil, nil
+					}
+					return []net.IPNet{}, nil
+				}))
+			},
+			ref: func(es []ref.Entry) (netip.Addr, bool) { return ref.RightmostTrustedRange(es, nil) }})
+	}
+	// one /32 and one /128 (single addresses), and the whole address space
+	single, _ := clientip.AddressesAndRangesToIPNets("10.0.0.1", "fd00::1")
+	sp := toPrefixes(single)
+	out = append(out, rdef{name: "RightmostTrustedRange(single addresses)", rightmost: true,
+		mk: func(k clientip.HeaderKey) (fox.ClientIPResolver, error) {
+			return clientip.NewRightmostTrustedRange(k, clientip.TrustedIPRangeFunc(func() ([]net.IPNet, error) { return single, nil }))
+		},
+		ref: func(es []ref.Entry) (netip.Addr, bool) { return ref.RightmostTrustedRange(es, sp) }})
 	out = append(out, rdef{name: "RightmostTrustedRange(failing range source)", rightmost: true,
 		mk: func(k clientip.HeaderKey) (fox.ClientIPResolver, error) {
 			return clientip.NewRightmostTrustedRange(k, clientip.TrustedIPRangeFunc(func() ([]net.IPNet, error) { return nil, errors.New("no ranges") }))
